@@ -215,6 +215,7 @@ func (r *propRun) runJob(j Job) {
 		if err != nil {
 			r.infra = append(r.infra, fmt.Sprintf("job %s: sample replay failed: %v\n%s", j.Name, err, tail(out, 30)))
 		}
+		before := r.validated
 		for _, c := range cases {
 			nr, ok := nres[c.ID]
 			if !ok {
@@ -235,7 +236,7 @@ func (r *propRun) runJob(j Job) {
 			}
 			r.validated++
 		}
-		fmt.Printf("   cover witnesses validated natively: %d/%d\n", r.validated, len(cases))
+		fmt.Printf("   cover witnesses validated natively: %d/%d\n", r.validated-before, len(cases))
 	}
 	// 3. solver cross-check of logged sessions
 	if r.crossCheck {
